@@ -554,31 +554,32 @@ struct QExpression {
         }
     }
 
+    // The (truncated) divisor used by operator%.
+    SizeT64I RemainderDivisor() const noexcept {
+        return ((Type == ExpressionType::RealNumber) ? SizeT64I(Value.Number.Real) : Value.Number.Integer);
+    }
+
     SizeT64I operator%(const QExpression &right) const noexcept {
-        SizeT64I result = 0;
+        const SizeT64I divisor = right.RemainderDivisor();
+        SizeT64I       result  = 0;
 
-        switch (Type) {
-            case ExpressionType::NaturalNumber:
-            case ExpressionType::IntegerNumber: {
-                if (right.Type == ExpressionType::RealNumber) {
-                    result = (Value.Number.Integer % SizeT64I(right.Value.Number.Real));
-                } else {
-                    result = (Value.Number.Integer % right.Value.Number.Integer);
+        // Nothing to compute for 0 (undefined; the caller rejects it) and for -1
+        // (always 0, and the most negative number % -1 traps).
+        if ((divisor != 0) && (divisor != SizeT64I{-1})) {
+            switch (Type) {
+                case ExpressionType::NaturalNumber:
+                case ExpressionType::IntegerNumber: {
+                    result = (Value.Number.Integer % divisor);
+                    break;
                 }
 
-                break;
-            }
-
-            case ExpressionType::RealNumber: {
-                result = SizeT64I(Value.Number.Real);
-                if (right.Type == ExpressionType::RealNumber) {
-                    result %= SizeT64I(right.Value.Number.Real);
-                } else {
-                    result %= right.Value.Number.Integer;
+                case ExpressionType::RealNumber: {
+                    result = (SizeT64I(Value.Number.Real) % divisor);
+                    break;
                 }
-            }
 
-            default: {
+                default: {
+                }
             }
         }
 
